@@ -129,6 +129,24 @@ def takeLim (limit : Nat) (l : List Entry) : List Entry := if limit == 0 then l 
 def passesItems (cfg : ProvCfg) (raws : List Raw) (k : Nat) : List Entry :=
   (List.replicate k (raws.filterMap (itemOf cfg))).flatten
 
+/-! ### the generic scenario provider (`components/providers/scenario/provider.go` `Run`) -/
+
+/-- the loop of `Provider.Run` over its list of `len` ammo: before every delivery the passes (`ammoNum / len ≥ passes`)
+and the limit (`ammoNum ≥ limit`) are checked, 0 = not configured; the ammo delivered is number `ammoNum mod len` of the
+list. `fuel` = how many ammo are asked for (the loop itself never ends when nothing is configured); returns the indices
+delivered. -/
+def scenRun (len passes limit : Nat) : Nat → Nat → List Nat
+  | 0, _ => []
+  | fuel + 1, n =>
+    if passes != 0 && n / len ≥ passes then []
+    else if limit != 0 && n ≥ limit then []
+    else (n % len) :: scenRun len passes limit fuel (n + 1)
+
+/-- how many ammo the provider delivers at most: `passes` times the list, cut at `limit`; `none` = unbounded -/
+def scenAvail (len passes limit : Nat) : Option Nat :=
+  if passes == 0 then (if limit == 0 then none else some limit)
+  else if limit == 0 then some (passes * len) else some (min (passes * len) limit)
+
 /-! ### shared client pool -/
 
 /-- `prepareClientPool`: disabled ⇒ no pool (0); enabled ⇒ `client-number`, at least 1 -/
